@@ -25,9 +25,9 @@ ASSUMPTIONS = [
 RULE = ("(plus 3 / 25 genuinely concurrent stress runs as a search aid: ticket counter + unit transfers between accounts in random "
         "acquisition order, oracle: no lost update, sum preserved, termination) "
         "cases = scripted schedules from one PRNG (VERIF_SEED): 2-5 sharers, 1-4 LocalSharedManager variables (number or "
-        "number->number function, some wrapped in resources.Persistent over in-memory badger), 10-70 driver steps "
+        "number->number function, some wrapped in resources.Persistent over in-memory badger), lock timeout 0 / 1 ns / 2-4 ms / 120 ms, 10-70 driver steps "
         "(begin / read / write / index read / index write / read-increment / commit / voluntary abort / per-variable releases in "
-        "scripted order interleaved with other sharers (api mode) / GetState), lock timeout 2-4 ms; mode api drives the "
+        "scripted order interleaved with other sharers (api mode) / GetState); mode api drives the "
         "ArchetypeResource API directly, mode ctx drives real MPCalContext.Run loops. Non-trivial = two sections overlap on a "
         "variable (an access found the lock held, or a variable was taken over while its previous holder was still releasing others); "
         "distinct by canonical op text.")
@@ -54,7 +54,12 @@ def gen_case(rng, tier, forced_mode=None):
     has = [set() for _ in range(nsh)]
     holder = {}
     ops = []
+    # "every lock timeout setting": mostly a few ms, but also 0, 1 ns and a long one (few steps: each blocked access waits it out)
+    t = rng.random()
+    timeout_ms = 0 if t < 0.10 else 1e-6 if t < 0.17 else 120 if t < 0.21 else rng.choice([2, 3, 4])
     nsteps = rng.randint(10, 70 if tier == "quick" else 120)
+    if timeout_ms == 120:
+        nsteps = rng.randint(8, 22)
     hot = rng.randrange(nv)
 
     def pick_var():
@@ -150,15 +155,16 @@ def gen_case(rng, tier, forced_mode=None):
             for v in rng.sample(sorted(dirty[i]), len(dirty[i])):
                 ops.append(["crel" if phase[i] == "committing" else "arel", i, v]); release(i, v)
             ops.append(["end", i]); phase[i] = "idle"
-    return {"mode": mode, "nsh": nsh, "timeout_ms": rng.choice([2, 3, 4]), "vars": vars_, "ops": ops}
+    return {"mode": mode, "nsh": nsh, "timeout_ms": timeout_ms, "vars": vars_, "ops": ops}
 
 
-def gen_stress(rng, tier):
+def gen_stress(rng, tier, zero=None):
     nv = rng.choice([1, 3, 4, 5])
     vars_ = [{"init": rng.randint(0, 5), "persist": rng.random() < 0.3}] + \
             [{"init": 100, "persist": rng.random() < 0.3} for _ in range(nv - 1)]
-    return {"mode": "stress", "nsh": rng.randint(2, 5), "timeout_ms": rng.choice([1, 2]), "vars": vars_,
-            "iters": 50 if tier == "quick" else 400, "seed": rng.randrange(1 << 30), "ops": []}
+    to = rng.choice([1, 2, 0]) if zero is None else (0 if zero else rng.choice([1, 2]))
+    return {"mode": "stress", "nsh": rng.randint(2, 5) if to else rng.randint(2, 3), "timeout_ms": to, "vars": vars_,
+            "iters": (50 if tier == "quick" else 400) if to else 25, "seed": rng.randrange(1 << 30), "ops": []}
 
 
 def oracle_stress(case, out):
@@ -222,6 +228,11 @@ def full_ops(case, res):
     return ops
 
 
+def strict(case):
+    """with a lock timeout below a millisecond a timeout on a free lock is legitimate (select may see both ready)"""
+    return case["mode"] != "stress" and case["timeout_ms"] >= 1
+
+
 def anomalies(case, out):
     """outcomes that depend on machine load rather than on the schedule: a timeout although nobody else held the
     lock (select saw the timer and the free lock ready together), a missed deadline, a step the script could not
@@ -233,15 +244,17 @@ def anomalies(case, out):
     ctx = case["mode"] == "ctx"
     for op, r in zip(full_ops(case, res), res):
         name, i = op[0], op[1]
-        if r["st"] in ("hang", "skip"):
+        if r["st"] == "hang" or (r["st"] == "skip" and strict(case)):
             n += 1
+            continue
+        if r["st"] == "skip":
             continue
         if name == "acc":
             v = op[2]
             if r["st"] == "ok":
                 holder[v] = i; held.setdefault(i, set()).add(v)
             elif r["st"] == "timeout":
-                if holder.get(v, i) == i:
+                if holder.get(v, i) == i and strict(case):
                     n += 1
                 if ctx:
                     for x in held.pop(i, set()):
@@ -481,6 +494,8 @@ def to_events(case, out):
     ctx = case["mode"] == "ctx"
     for s in steps:
         i = s["i"]
+        if s["st"] == "skip" and not strict(case):
+            continue   # after a legitimate timeout on a free lock the script could not take this step: it did nothing
         if s["st"] not in ("ok", "timeout"):
             return evs, "step %s returned %s" % (s, s["st"])
         if s["op"] == "begin":
@@ -549,7 +564,7 @@ def run(ctx):
         for k in range(n):
             cases.append(gen_case(rng, ctx.tier))
         for k in range(3 if ctx.tier == "quick" else 25):
-            cases.append(gen_stress(rng, ctx.tier))
+            cases.append(gen_stress(rng, ctx.tier, zero=(k == 0) if ctx.tier == "quick" else None))
     for k, c in enumerate(cases):
         c["id"] = k
     # run the harness in a few chunks (each case costs its timeouts)
@@ -567,6 +582,11 @@ def run(ctx):
         for r in res2:
             byid[r["id"]] = r; retried += 1
     ctx.extra["retried_after_load_dependent_outcome"] = retried
+    tdist = {}
+    for c in cases:
+        key = "0" if c["timeout_ms"] == 0 else "1ns" if c["timeout_ms"] < 1e-3 else "%gms" % c["timeout_ms"]
+        tdist[key] = tdist.get(key, 0) + 1
+    ctx.extra["lock_timeout_settings"] = tdist
     dist = {"api": 0, "ctx": 0, "stress": 0, "stress_commits": 0, "stress_attempts": 0, "timeouts": 0, "commits": 0, "aborts": 0, "persist_vars": 0, "steps": 0, "gets": 0}
     for c in cases:
         o = byid[c["id"]]
@@ -612,14 +632,15 @@ def run(ctx):
             probs = {}
             for k, c in enumerate(part):
                 if c.get("_skipped"):
-                    items.append("([], [])")
+                    items.append("(false, [], [])")
                     continue
                 evs, prob = to_events(c, c["_out"])
                 if prob:
                     probs[k] = prob
-                items.append("(%s,\n  [%s])" % (vlib.coq_list([coq_val(canon(v["init"])) for v in c["vars"]]), ";\n   ".join(evs)))
+                items.append("(%s, %s,\n  [%s])" % ("true" if strict(c) else "false",
+                                                   vlib.coq_list([coq_val(canon(v["init"])) for v in c["vars"]]), ";\n   ".join(evs)))
             body = ("From PGV Require Import C07.Model.\n"
-                    "Definition cases : list (list val * list (event * option val)) :=\n [" + ";\n ".join(items) + "].\n"
+                    "Definition cases : list (bool * list val * list (event * option val)) :=\n [" + ";\n ".join(items) + "].\n"
                     "Definition M := Eval vm_compute in mismatches_from 0 cases.\nPrint M.\n")
             rc, outc, errc = vlib.coq_eval("C07_cases_%d" % s0, body)
             mm = vlib.parse_nat_list(outc, "M") if rc == 0 else None
